@@ -27,6 +27,8 @@ import BitstringModel.Model.Basic
 import BitstringModel.Gen.Luts
 namespace BM.C11
 
+deriving instance DecidableEq for Except
+
 /-! ## hexadecimal on the wire (floats travel as IEEE bit patterns only) -/
 
 def hexDigit? (c : Char) : Option Nat :=
@@ -55,15 +57,27 @@ inductive FVal where
   | fin (neg : Bool) (m : Nat) (e : Int)
   deriving DecidableEq, Repr, Inhabited
 
-/-- Strip trailing zero bits of `m ≠ 0`: `m·2^e = m'·2^e'` with `m'` odd (fuel ≥ number of bits of `m`). -/
+/-- Strip trailing zero bits of `m ≠ 0`: `m·2^e = m'·2^e'` with `m'` odd (fuel ≥ number of trailing zeros of `m`). -/
 def stripZeros : Nat → Nat → Int → Nat × Int
   | 0, m, e => (m, e)
   | fuel + 1, m, e => if m % 2 = 0 then stripZeros fuel (m / 2) (e + 1) else (m, e)
 
-/-- The canonical form of `(−1)^neg · m · 2^e`. -/
+/-- Binary search for trailing zeros: strips `2^(2^(k-1))`, …, `2^2`, `2^1` whenever it divides `m`
+    (complete when `m ≠ 0` has fewer than `2^k` trailing zeros). -/
+def stripZerosFast : Nat → Nat → Int → Nat × Int
+  | 0, m, e => (m, e)
+  | k + 1, m, e =>
+    if m % 2 ^ (2 ^ k) = 0 then stripZerosFast k (m / 2 ^ (2 ^ k)) (e + (2 ^ k : Nat)) else stripZerosFast k m e
+
+/-- The canonical form of `(−1)^neg · m · 2^e`: all trailing zero bits of `m` moved into the exponent
+    (binary search first — the Lean kernel evaluates the one-bit loop slowly — then the loop, which finds nothing
+    left unless `m` had 8192 or more trailing zeros). -/
 def FVal.mk (neg : Bool) (m : Nat) (e : Int) : FVal :=
   if m = 0 then .fin neg 0 0
-  else let r := stripZeros (Nat.log2 m + 1) m e; .fin neg r.1 r.2
+  else
+    let q := stripZerosFast 13 m e
+    let r := stripZeros q.1 q.1 q.2
+    .fin neg r.1 r.2
 
 /-- IEEE 754-2019 §3.4: the value of a binary interchange-format bit pattern with `ebits` exponent bits and
     `mbits` trailing-significand bits (binary16 = 5/10, binary32 = 8/23, binary64 = 11/52). -/
@@ -82,9 +96,18 @@ def halfVal (b : Nat) : FVal := ieeeVal 5 10 b
 
 /-! ## IEEE rounding of an exact value (round to nearest, ties to even) — the float runtime -/
 
+/-- Binary search for the bit length: `log2b k n acc = acc + ⌊log₂ n⌋` for `0 < n < 2^(2^k)`. -/
+def log2b : Nat → Nat → Nat → Nat
+  | 0, _, acc => acc
+  | k + 1, n, acc => if 2 ^ (2 ^ k) ≤ n then log2b k (n / 2 ^ (2 ^ k)) (acc + 2 ^ k) else log2b k n acc
+
+/-- `⌊log₂ n⌋` (`= Nat.log2 n`; computed in 13 big-number steps below 2^8192, which covers every product,
+    quotient and sum of two float64 values — `Nat.log2` itself is evaluated bit by bit by the Lean kernel). -/
+def ilog2 (n : Nat) : Nat := if n < 2 ^ 8192 then log2b 13 n 0 else Nat.log2 n
+
 /-- `⌊log₂ (num/den)⌋` for `num, den > 0`. -/
 def ratLog2 (num den : Nat) : Int :=
-  let e0 : Int := (Nat.log2 num : Int) - (Nat.log2 den : Int)
+  let e0 : Int := (ilog2 num : Int) - (ilog2 den : Int)
   let ge : Bool := if e0 ≥ 0 then decide (den * 2 ^ e0.toNat ≤ num) else decide (den ≤ num * 2 ^ (-e0).toNat)
   if ge then e0 else e0 - 1
 
@@ -362,9 +385,14 @@ def Tbl.enc : Tbl → Array Nat
   | .p3 => Gen.encP3 | .p4 => Gen.encP4 | .e5m2s => Gen.encE5M2S | .e5m2o => Gen.encE5M2O
   | .e4m3s => Gen.encE4M3S | .e4m3o => Gen.encE4M3O | .e3m2 => Gen.encE3M2 | .e2m3 => Gen.encE2M3 | .e2m1 => Gen.encE2M1
 
-def Tbl.dec : Tbl → Array Nat
+/-- `(number of entries, entries packed 64 bits each, entry `u` in bits `64u … 64u+63`)`. -/
+def Tbl.dec : Tbl → Nat × Nat
   | .p3 => Gen.decP3 | .p4 => Gen.decP4 | .e5m2s => Gen.decE5M2S | .e5m2o => Gen.decE5M2O
   | .e4m3s => Gen.decE4M3S | .e4m3o => Gen.decE4M3O | .e3m2 => Gen.decE3M2 | .e2m3 => Gen.decE2M3 | .e2m1 => Gen.decE2M1
+
+/-- `lut[u]` on a decode table (a tuple of floats); `none` = IndexError. -/
+def decLookup (t : Nat × Nat) (u : Nat) : Option Nat :=
+  if u < t.1 then some (t.2 / 2 ^ (64 * u) % 2 ^ 64) else none
 
 /-- `(pos_clamp_value, neg_clamp_value)` of the live object. -/
 def Tbl.clamp : Tbl → Nat × Nat
@@ -475,7 +503,7 @@ def encode (n : Name) (mode : Mode) (f : Nat) : Except Err Nat :=
 /-! ## ALG: decoders (bits.py:730-807); every getter of a two-mode format reads the *saturate* object's table -/
 
 def tblDec (t : Tbl) (u : Nat) : Except Err Nat :=
-  match t.dec[u]? with
+  match decLookup t.dec u with
   | some v => .ok v
   | none => .error .index
 
@@ -595,7 +623,9 @@ def handle (args : List String) : String :=
     match Name.ofStr? n, Mode.ofStr? mode, hexToNat? f with
     | some n, some mode, some f => resultToStr (fmtCode n) (encode n mode f)
     | _, _, _ => "bad-op"
-  | ["dec", n, code] =>
+  -- decoding does not look at `mxfp_overflow` (every getter reads the saturate object's table); the mode
+  -- travels on the line because the implementation is run under it
+  | ["dec", n, _mode, code] =>
     match Name.ofStr? n, hexToNat? code with
     | some n, some c => resultToStr fmtF64 (decode n c)
     | _, _ => "bad-op"
@@ -603,7 +633,7 @@ def handle (args : List String) : String :=
     match Name.ofStr? n, Mode.ofStr? mode, Scale.ofStr? s, hexToNat? f with
     | some n, some mode, some s, some f => resultToStr (fmtCode n) (scaledEncode n mode s f)
     | _, _, _, _ => "bad-op"
-  | ["sdec", n, s, code] =>
+  | ["sdec", n, _mode, s, code] =>
     match Name.ofStr? n, Scale.ofStr? s, hexToNat? code with
     | some n, some s, some c => resultToStr fmtF64 (scaledDecode n s c)
     | _, _, _ => "bad-op"
@@ -620,7 +650,7 @@ def handle (args : List String) : String :=
       "ok " ++ ",".intercalate ((List.range cnt).map fun i => itemEnc n (encode n mode (unpackIEEE 5 10 (st + i))))
     | _, _, _, _ => "bad-op"
   -- a block of consecutive codes
-  | ["decb", n, start, count] =>
+  | ["decb", n, _mode, start, count] =>
     match Name.ofStr? n, hexToNat? start, count.toNat? with
     | some n, some st, some cnt =>
       "ok " ++ ",".intercalate ((List.range cnt).map fun i => itemDec (decode n (st + i)))
